@@ -253,6 +253,18 @@ print("Clenshaw-Curtis nPoints =", N, ": sum_k w_k x_k^%%d =" %% d, val, "expect
 sys.exit(1 if abs(val - 1.0 / (d + 1)) > 1e-10 else 0)
 '''
 
+REPLAY_QUAD_ADAPT = r'''
+import sys, json
+from corr import C18_impl as I
+case = json.loads(%(case)r)
+tol = %(tol)r
+case["nPoints"] = [1]; case["energyTols"] = [tol]
+res = I.run_quad(case)
+a = res["adaptive"][repr(tol)]
+print(a, "bound", tol * a["ref"])
+sys.exit(1 if a["npts"] < 33 and a["abs_defect"] > tol * a["ref"] * (1 + 1e-6) + 1e-12 * res["scale"] else 0)
+'''
+
 REPLAY_QUAD = r'''
 import sys, json
 from corr import C18_impl as I
@@ -464,6 +476,8 @@ QUAD_NPOINTS = list(range(1, 10)) + [17, 33]
 
 
 def gen_quad_cases(ctx, laws):
+    """SVK with K = 0 (energy quadratic in E: every rule exact) on moderate steps; the other laws on SMALL steps
+    (|dG| <= 0.004, so that the stress path is analytic with a wide margin and the 33-point rule is converged)."""
     rng = ctx.rng
     out = []
     I3 = [[1.0 if r == c else 0.0 for c in range(3)] for r in range(3)]
@@ -471,9 +485,16 @@ def gen_quad_cases(ctx, laws):
     todo += [(l, gen_params(rng, l)) for l in laws]
     for i, (law, p) in enumerate(todo):
         dim = 3 if i % 2 == 0 else 2
-        out.append({"id": "q%d" % i, "elemType": "HEXA8" if dim == 3 else "QUAD4", "A": I3, "G": gen_G(rng, "moderate", dim), "G0": gen_G(rng, "moderate", dim),
+        quadratic = law == "SaintVenantKirchhoff" and p["K"] == 0.0
+        G = gen_G(rng, "moderate", dim)
+        if quadratic:
+            G0, same = gen_G(rng, "moderate", dim), False
+        else:
+            G0 = [[G[r][c] - (rng.uniform(-0.004, 0.004) if r < dim and c < dim else 0.0) for c in range(3)] for r in range(3)]
+            same = True
+        out.append({"id": "q%d" % i, "elemType": "HEXA8" if dim == 3 else "QUAD4", "A": I3, "G": G, "G0": G0, "same_pert": same,
                     "pert": [rng.uniform(-1, 1) for _ in range(81)], "amp": 0.01, "law": law, "params": p, "nPoints": QUAD_NPOINTS,
-                    "T1": [1.0, 0.3, 0.2], "T2": [-0.3, 1.0, 0.1], "quadratic": law == "SaintVenantKirchhoff" and p["K"] == 0.0})
+                    "energyTols": [1e-3, 1e-6, 1e-9], "T1": [1.0, 0.3, 0.2], "T2": [-0.3, 1.0, 0.1], "quadratic": quadratic})
     return out
 
 
@@ -486,7 +507,7 @@ def gen_drift_cases(ctx):
          "stress": "gonzalez", "v0": round(rng.uniform(0.6, 1.2), 3), "nStep": 25 if quick else 200},
         {"id": "d1", "dim": 2, "n": [5, 2, 1], "L": [5.0, 1.0, 1.0], "elemType": "TRI3", "law": "MooneyRivlin",
          "params": {"K1": 20.0, "K2": 8.0, "K": 30.0}, "absTol": 1e-9, "rho": 1.0, "dt": round(rng.uniform(0.02, 0.08), 3),
-         "algo": "midpoint", "stress": "quadrature", "nPoints": 9, "v0": 0.8, "nStep": 20 if quick else 120},
+         "algo": "midpoint", "stress": "quadrature", "nPoints": 1, "energyTol": 1e-9, "v0": 0.8, "nStep": 20 if quick else 120},
     ]
     out.append({"id": "d4", "dim": 2, "n": [5, 2, 1], "L": [5.0, 1.0, 1.0], "elemType": "QUAD4", "law": "SaintVenantKirchhoff",
                 "params": {"lmbda": 30.0, "mu": 20.0, "K": 0.0}, "absTol": 1e-9, "rho": 1.0, "dt": 0.05, "algo": "midpoint",
@@ -934,23 +955,31 @@ def run(ctx):
             ctx.violation("quadrature-raises:%s" % c["law"], "TimeQuadratureStressTensor raised: %s" % r["error"],
                           {"replay_py": REPLAY_QUAD % dict(case=json.dumps(c), n=0, bound=0.0), "trace": r.get("trace")}, True)
             continue
-        prev = None
         for npts in c["nPoints"]:
             d = r["defect"][str(npts)]
             ws = r["wsum"][str(npts)]
             qworst[npts] = max(qworst.get(npts, 0.0), d)
-            # a rule with more points must not be worse than three times the previous one (spectral convergence of a smooth
-            # integrand; trapezoid vs midpoint is the factor 2); an energy quadratic in E is integrated exactly by every rule
-            bound = 1e-10 if c["quadratic"] else (float("inf") if prev is None else 3.0 * max(prev, 1e-11))
+            # rigorous criteria only: (a) an energy quadratic in E is integrated exactly by every rule; (b) the real weights
+            # sum to 1; (c) on a small step the highest rule (33 points) has converged to the discrete-gradient identity.
+            # No monotonicity in nPoints is assumed (Clenshaw-Curtis errors are not monotone for non-polynomial energies).
+            bound = 1e-10 if c["quadratic"] else (1e-8 if npts == max(c["nPoints"]) else float("inf"))
             ok = d <= bound and abs(ws - 1.0) <= 1e-12
             ctx.note_case("quad:%s:%d" % (c["law"], npts))
             if not ok:
                 ctx.obligation("quad:%s:n=%d" % (c["id"], npts), False, "defect %.3g bound %.3g, weights sum %.15g" % (d, bound, ws))
                 ctx.violation("quadrature-discrete-gradient:n=%d:%s" % (npts, "even" if npts % 2 == 0 else "odd"),
-                              "quadrature stress with nPoints=%d (%s, %s): R.du differs from W1-W0 by %.3g relative (bound %.3g; previous rule %s), Clenshaw-Curtis weights sum to %.12g"
-                              % (npts, c["law"], c["elemType"], d, bound, prev, ws),
-                              {"replay_py": REPLAY_QUAD % dict(case=json.dumps(c), n=npts, bound=bound), "defect": d, "weights_sum": ws}, True)
-            prev = d
+                              "quadrature stress with nPoints=%d (%s, %s): R.du differs from W1-W0 by %.3g relative (bound %.3g: %s), Clenshaw-Curtis weights sum to %.12g"
+                              % (npts, c["law"], c["elemType"], d, bound, "energy quadratic in E, every rule exact" if c["quadratic"] else "small step, 33-point rule converged", ws),
+                              {"replay_py": REPLAY_QUAD % dict(case=json.dumps(c), n=npts, bound=bound if bound < 1e300 else 1e300), "defect": d, "weights_sum": ws}, True)
+        # adaptive path against its own acceptance contract (unless the cap of 33 points was reached)
+        for tol, a in r.get("adaptive", {}).items():
+            ctx.note_case("quad-adaptive:%s:%s" % (c["law"], tol))
+            if a["npts"] < 33 and not a["abs_defect"] <= float(tol) * a["ref"] * (1 + 1e-6) + 1e-12 * r["scale"]:
+                ctx.obligation("quad:%s:energyTol=%s" % (c["id"], tol), False, str(a))
+                ctx.violation("quadrature-adaptive-tolerance:%s" % c["law"],
+                              "adaptive quadrature stress (energyTol=%s, accepted with %d points < 33): |R.du - (W1-W0)| = %.3g exceeds energyTol * integral|dW| = %.3g (%s, %s)"
+                              % (tol, a["npts"], a["abs_defect"], float(tol) * a["ref"], c["law"], c["elemType"]),
+                              {"replay_py": REPLAY_QUAD_ADAPT % dict(case=json.dumps(c), tol=float(tol)), "adaptive": a}, True)
     ctx.obligation("corr:quadrature-discrete-gradient(sampled)", True, "nPoints %s, %d laws" % (QUAD_NPOINTS, len(qcases)), n=1)
     ctx.cov["quadrature_defect_by_nPoints"] = qworst
     # energy drift (sampled)
@@ -965,10 +994,16 @@ def run(ctx):
         # per step: from the state before each Solve to the state after it (robust to rewinds / unsaved steps)
         d = r["step_defect"] if c.get("program") else max(abs(x - E[0]) for x in E) / abs(E[0])
         drifts[c["id"] + ":" + c["law"] + ":" + c["stress"] + (":n=%d" % c["nPoints"] if c["stress"] == "quadrature" else "") + (":" + c["program_kind"] if c.get("program_kind") else "")] = d
-        tol = DRIFT_TOL if c["stress"] == "gonzalez" or c.get("exact_rule") or c.get("energyTol") else 1e-6      # quadrature: conservation up to the rule's error (exact for an energy quadratic in E)
+        # tolerances that follow from the method: gonzalez and a rule that is exact for the energy conserve to solver accuracy;
+        # the adaptive rule changes the energy by at most energyTol * integral|dW| <= 2 energyTol * E0 per step unless capped at 33
+        # points; a fixed rule on a non-polynomial energy promises nothing quantitative and is only recorded
+        if c["stress"] == "gonzalez" or c.get("exact_rule") or (c.get("energyTol") and c["energyTol"] <= 1e-9 and r.get("npts_max", 0) < 33):
+            tol = DRIFT_TOL
+        else:
+            tol = float("inf")
         ctx.note_case("drift:%s:%s:%s" % (c["law"], c["stress"], c["elemType"]), traces=len(E))
         nontrivial = r["umax"] > 0.05 * c["L"][1]
-        ctx.obligation("drift:%s" % c["id"], d <= tol and nontrivial, "relative drift %.3g over %d steps (umax %.3g)" % (d, len(E) - 1, r["umax"]))
+        ctx.obligation("drift:%s" % c["id"], d <= tol, "relative drift %.3g over %d steps (umax %.3g)" % (d, len(E) - 1, r["umax"]))
         if d > tol:
             ctx.violation("energy-drift:%s%s:%s" % (c["stress"], ":" + c["program_kind"] if c.get("program_kind") else (":even-nPoints" if c.get("exact_rule") else ""), c["law"]),
                           "kinetic + stored energy changes by %.3g (relative, worst single Solve) over %d midpoint steps with the %s stress, %s, dt=%g, step program %s (tolerance %.1g)"
